@@ -152,6 +152,10 @@ impl<'a> MetaStoreUpdate<'a> {
             return Err(MetaStoreError::InvalidNodeNum);
         }
         let proxy_num = NonZeroUsize::new(node_num / 2).ok_or(MetaStoreError::InvalidNodeNum)?;
+        // Every master needs at least one slot.
+        if proxy_num.get() > SLOT_NUM {
+            return Err(MetaStoreError::InvalidNodeNum);
+        }
 
         let proxy_resource_arr = if self.store.enable_ordered_proxy {
             self.generate_free_chunks_for_ordered_proxy_index(proxy_num, 0)?
@@ -308,6 +312,10 @@ impl<'a> MetaStoreUpdate<'a> {
             return Err(MetaStoreError::InvalidNodeNum);
         }
         let proxy_num = NonZeroUsize::new(num / 2).ok_or(MetaStoreError::InvalidNodeNum)?;
+        // Every master needs at least one slot.
+        if existing_proxy_num + proxy_num.get() > SLOT_NUM {
+            return Err(MetaStoreError::InvalidNodeNum);
+        }
 
         let proxy_resource_arr = if self.store.enable_ordered_proxy {
             self.generate_free_chunks_for_ordered_proxy_index(proxy_num, existing_proxy_num)?
